@@ -211,7 +211,10 @@ def main(argv):
         return 2
     if argv[0] == "--build":
         build_engine(force=True)
-        return 0
+        # the term simplifier's soundness self-test is part of setup
+        r = subprocess.run(["go", "test", "-count=1", "-run", "TestSimplifierSound", "."], cwd=os.path.join(VERIF, "engine"), env=GOENV, capture_output=True, text=True)
+        sys.stderr.write(r.stdout[-500:] + r.stderr[-500:])
+        return 0 if r.returncode == 0 else 2
     if argv[0] == "--run":
         # ad-hoc: ./check --run <pkgdir> <Harness> k=v ...
         build_engine()
